@@ -213,12 +213,14 @@ theorem step_sim2 (c : Ctx) (prog : List Insn) (nS pc ix : Nat) (s : State) (σ 
             obtain ⟨s', h1, h2, _⟩ := rep_save h rep (cnt + 1) hlt
             simp only [h1]
             split at hs
-            · rename_i hge
-              rw [if_pos hge]; cases hs
-              exact sim_pushOr h2 next ix (pc + 1) ix rfl rfl rfl
-            · rename_i hge
-              rw [if_neg hge]; cases hs
-              exact StepRel2.cont' h2 rfl rfl rfl
+            · cases hs
+            · split at hs
+              · rename_i hge
+                rw [if_pos hge]; cases hs
+                exact sim_pushOr h2 next ix (pc + 1) ix rfl rfl rfl
+              · rename_i hge
+                rw [if_neg hge]; cases hs
+                exact StepRel2.cont' h2 rfl rfl rfl
       · cases hs
     | repeatNg lo hi next rep =>
       simp only at hs ⊢
@@ -237,12 +239,14 @@ theorem step_sim2 (c : Ctx) (prog : List Insn) (nS pc ix : Nat) (s : State) (σ 
             obtain ⟨s', h1, h2, _⟩ := rep_save h rep (cnt + 1) hlt
             simp only [h1]
             split at hs
-            · rename_i hge
-              rw [if_pos hge]; cases hs
-              exact sim_pushOr h2 (pc + 1) ix next ix rfl rfl rfl
-            · rename_i hge
-              rw [if_neg hge]; cases hs
-              exact StepRel2.cont' h2 rfl rfl rfl
+            · cases hs
+            · split at hs
+              · rename_i hge
+                rw [if_pos hge]; cases hs
+                exact sim_pushOr h2 (pc + 1) ix next ix rfl rfl rfl
+              · rename_i hge
+                rw [if_neg hge]; cases hs
+                exact StepRel2.cont' h2 rfl rfl rfl
       · cases hs
     | repeatEpsGr lo next rep check =>
       simp only at hs ⊢
